@@ -48,7 +48,16 @@ pure notaryDisabled(s Store) Bool = s.has("notary") && b2i(s.get("notary")) != 0
 pure cfg(s Store, k Bytes) Int = b2i(s.get("config" ++ k))
 pure gasHash() Bytes = "\xcf\x76\xe2\x8b\xd0\x06\x2c\x4a\x47\x8e\xe3\x55\x61\x01\x13\x19\xf3\xcf\xa4\xd2"
 
+// without Notary a decision takes effect exactly in the invocation whose vote makes the count of distinct Alphabet
+// keys reach floor(2n/3)+1, n = number of stored Alphabet keys; voted(k) is the count returned by the k-th Vote call
+pure akeys0(s Store) L_NB = deser_L_NB(s.get("alphabet"))
+pure thr(s Store) Int = len(akeys0(s)) * 2 / 3 + 1
+pure voted(k Int) Int = asint(cres("Vote", k))
+
 func Cheque(id, user, amount, lockAcc)
+  ensures [C17] notaryDisabled(old(store)) ==> xcalls("Vote").len == old(xcalls("Vote")).len + 1
+  ensures [C17] notaryDisabled(old(store)) && old(store).has("alphabet") ==>
+        ((notifs.len == old(notifs).len + 1) == (voted(old(xcalls("Vote")).len) >= thr(old(store))))
   // pays out exactly the cheque amount, at most once per invocation, together with its notification
   ensures [C19] xcalls == old(xcalls) || xcalls == old(xcalls) ++ [native_gas_Transfer(self(), user, amount, nil)]
   ensures [C19] notifs == old(notifs) || notifs == old(notifs) ++ [Cheque(id, user, amount, lockAcc)]
@@ -94,13 +103,27 @@ func Withdraw(user, amount)
         xcalls("native_gas_Transfer")[entry(xcalls("native_gas_Transfer")).len + j] == ev_native_gas_Transfer(user, stdacct(alphabet[j]), fee, "")
 
 func SetConfig(id, key, val)
+  ensures [C17] notaryDisabled(old(store)) ==> xcalls("Vote").len == old(xcalls("Vote")).len + 1
+  ensures [C17] notaryDisabled(old(store)) && old(store).has("alphabet") ==>
+        ((notifs.len == old(notifs).len + 1) == (voted(old(xcalls("Vote")).len) >= thr(old(store))))
   ensures [C17] !notaryDisabled(old(store)) ==> W(alphabet())
   ensures [C17] notifs == old(notifs) || notifs == old(notifs) ++ [SetConfig(id, key, val)]
   ensures [C17] forall k Bytes {store.opt(k)} :: k != "ballots" && k != "config" ++ key ==> store.opt(k) == old(store).opt(k)
 
 func AlphabetUpdate(id, args)
+  ensures [C17] notaryDisabled(old(store)) ==> xcalls("Vote").len == old(xcalls("Vote")).len + 1
+  ensures [C17] notaryDisabled(old(store)) && old(store).has("alphabet") ==>
+        ((notifs.len == old(notifs).len + 1) == (voted(old(xcalls("Vote")).len) >= thr(old(store))))
   ensures [C17] !notaryDisabled(old(store)) ==> W(alphabet())
   ensures [C17] forall k Bytes {store.opt(k)} :: k != "ballots" && k != "alphabet" ==> store.opt(k) == old(store).opt(k)
   loop 0
-    invariant store == old(store) && notifs == old(notifs) && xcalls == old(xcalls)
+    invariant store == old(store) && notifs == old(notifs) && xcalls == old(xcalls) && xcalls("Vote").len == old(xcalls("Vote")).len
+
+// removal of a candidate: by the candidate itself at once, otherwise by the Alphabet (vote-collected without Notary)
+func InnerRingCandidateRemove(key)
+  ensures [C17] !W(key) && notaryDisabled(old(store)) ==> xcalls("Vote").len == old(xcalls("Vote")).len + 1
+  ensures [C17] !W(key) && notaryDisabled(old(store)) && old(store).has("alphabet") && old(store).has("candidates" ++ key) ==>
+        (!store.has("candidates" ++ key) == (voted(old(xcalls("Vote")).len) >= thr(old(store))))
+  ensures [C17] W(key) ==> !store.has("candidates" ++ key)
+  ensures [C17] forall k Bytes {store.opt(k)} :: k != "ballots" && k != "candidates" ++ key ==> store.opt(k) == old(store).opt(k)
 @*/
